@@ -661,7 +661,11 @@ impl<K: CacheKey + 'static> AsyncCache<K> for DiskCache<K> {
                 .fetch_sub(entry.size_bytes as u64, Ordering::Relaxed);
             Ok(true)
         } else {
-            Ok(false)
+            // Not indexed by this instance: a file written by a previous
+            // instance may still exist, and `get` would serve it through its
+            // on-disk fallback. Remove it so that a removed key stays removed.
+            let file_path = self.get_file_path(key);
+            Ok(file_path.is_file() && fs::remove_file(&file_path).is_ok())
         }
     }
 
